@@ -232,6 +232,18 @@ func c01GenE2E(r *rand.Rand) *c01E2ECase {
 		}
 	}
 	tc.cHdr = hdr(3)
+	if r.Intn(10) == 0 {
+		// round 7 — header-block size class: one field value of poorly compressible text around and
+		// beyond the 16 KiB HTTP/2 frame (the header block then travels as HEADERS + CONTINUATION
+		// frames; END_STREAM of a body-less request rides on the HEADERS frame), well below every
+		// origin's 1 MiB header limit
+		n := verifh.Pick(r, []int{16000, 16384, 17000, 20000, 33000, 50000}) + r.Intn(3) - 1
+		b := make([]byte, n)
+		for i := range b {
+			b[i] = "XZ~|^{}<>#$&*?!"[r.Intn(15)]
+		}
+		tc.rHdr["X-Huge"] = []string{string(b)}
+	}
 	if r.Intn(4) == 0 {
 		tc.nonCanon = map[string]string{verifh.Pick(r, []string{"x-lower", "X-mIxEd", "x_nc", "lowercase-only"}): verifh.Pick(r, c01E2EHdrValues)}
 	}
@@ -909,12 +921,18 @@ func TestVerif_C01_e2e(t *testing.T) {
 		if len(tc.order) > 0 {
 			s.Count("header-order")
 		}
+		if len(tc.rHdr["X-Huge"]) > 0 {
+			s.Count("header-block>16K")
+			if body == nil {
+				s.Count("header-block>16K:bodyless")
+			}
+		}
 		if !ok && class == "" {
 			failures++
 		}
 		s.Observe(fmt.Sprintf("e2e-%d", i), ok, class, allSeen, human, detail)
 	}
-	s.Need(t, "h1:fired", "h2:fired", "h3:fired", "body>=4K", "header-order", "retried-attempt", "edited-attempt", "edit:rpath", "edit:cpath", "edit:query", "edit:header", "edit:cookie", "edit:body", "edit:url", "cookie-lines", "cookie-lines+objects")
+	s.Need(t, "h1:fired", "h2:fired", "h3:fired", "body>=4K", "header-order", "retried-attempt", "edited-attempt", "edit:rpath", "edit:cpath", "edit:query", "edit:header", "edit:cookie", "edit:body", "edit:url", "cookie-lines", "cookie-lines+objects", "header-block>16K", "header-block>16K:bodyless")
 	s.Finish()
 }
 
